@@ -285,7 +285,7 @@ func run(r *harness.Run) {
 	for _, c := range cpRunes {
 		cps = append(cps, mkSpells(c))
 	}
-	r.Rule("bounded-exhaustive: (A) every string of <=L code points over a 27-symbol alphabet in every escape spelling, as value and as object key; (B) every object of <=K keys from a 14-key menu in every key order with <=1 respelled key; (C) every JSON tree of <=N nodes over small leaf/key menus x whitespace at every gap with <=W non-default gaps (deviation-bounded DFS); (D) every single-byte insertion/deletion/substitution/truncation of the canonical texts of C; (E) 29 number literals x 11 contexts x all 16 room versions through EnforcedCanonicalJSON. Non-trivial = distinct text whose canonical form differs from the text (A-C), distinct invalid text rejected (D), distinct (version,text) with a decisive number (E). Oracle: independent reference parser/emitter refjson + encoding/json.Valid.")
+	r.Rule("bounded-exhaustive: (A) every string of <=L code points over a 27-symbol alphabet in every escape spelling, as value and as object key; (B) every object of <=K keys from a 14-key menu in every key order with <=1 respelled key; (C) every JSON tree of <=N nodes over small leaf/key menus x whitespace at every gap with <=W non-default gaps (deviation-bounded DFS); (D) every single-byte insertion/deletion/substitution/truncation of the canonical texts of C; (E) 29 number literals x 61 contexts (11 structural, 50 under member names of the event vocabulary such as unsigned / signatures / content at several depths) x all 16 room versions through EnforcedCanonicalJSON. Non-trivial = distinct text whose canonical form differs from the text (A-C), distinct invalid text rejected (D), distinct (version,text) with a decisive number (E). Oracle: independent reference parser/emitter refjson + encoding/json.Valid.")
 	r.Assume("encoding/json.Valid and refjson agree on validity (texts where they disagree are skipped and counted)", "texts that are not UTF-8, have duplicate keys or lone surrogates are outside the property and only checked for no-panic")
 	report := func(v *verdict, kind string, input interface{}) {
 		if v != nil {
@@ -578,6 +578,11 @@ func run(r *harness.Run) {
 
 	// (E) enforced variant: numbers x contexts x versions
 	ctxs := []string{"%s", "[%s]", `{"a":%s}`, `{"a":[%s]}`, `{"a":{"b":%s}}`, `[1,%s]`, `{"a":1,"b":%s}`, `["1.5",%s]`, `{"1.5":%s}`, `{"a":[{"b":[%s,0]}]}`, `[%s,"1e5","-0"]`}
+	// the check is about numbers anywhere in the text: member names that mean something elsewhere in the library (the
+	// event vocabulary) are no exception, at any depth and in any spelling
+	for _, k := range []string{"unsigned", `\u0075nsigned`, "signatures", "hashes", "content", "age_ts", "prev_content", "redacted_because", "event_id", "_x"} {
+		ctxs = append(ctxs, `{"`+k+`":%s}`, `{"`+k+`":{"x":%s}}`, `{"content":{"`+k+`":%s}}`, `[{"a":[{"`+k+`":%s}]}]`, `{"`+k+`":[0,%s]}`)
+	}
 	vers := refversions.All()
 	r.Parallel(len(vers), func(vi int) {
 		ver := gmsl.RoomVersion(vers[vi])
